@@ -172,25 +172,30 @@ def check_has_trailing(facts, rep):
 
 
 def sentinel_bytes(facts):
+    """the three bytes allocateStringBuffer leaves behind the text, read off by evaluating it (sv/minterp.py) for a
+    5-byte text - independent of how the stores are spelt"""
+    from ..minterp import Interp, Unsupported, UndefinedBehaviour
     for f in facts.functions:
-        if f.short != 'allocateStringBuffer':
+        if f.short != 'allocateStringBuffer' or len(f.params) != 2:
             continue
-
-        def sym(e):
-            if e.get('k') == 'ref' and e.get('dk') == 'param':
-                return e['name']
+        TEXT, BASE, L = 0x2000, 0x100000, 5
+        try:
+            def hook(e, args, env, members):
+                if (e.get('cname') or '') == 'Malloc' and len(args) == 1 and isinstance(args[0], int):
+                    for j_ in range(args[0]):
+                        it.memory[BASE + j_] = 0xCD
+                    it.writable.append((BASE, BASE + args[0]))
+                    return BASE
+                return None
+            it = Interp(f, facts, call_hook=hook, max_steps=20000)
+            it.memory = {TEXT + i_: 0x41 + i_ for i_ in range(L)}
+            it.writable = []
+            it.written = set()
+            it.run({f.params[0]['id']: TEXT, f.params[1]['id']: L}, {'alloc_': 'ALLOC', 'str_': 0, 'schema_str_': 0})
+            if all((BASE + L + k_) in it.written for k_ in range(3)):
+                return [it.memory[BASE + L + k_] for k_ in range(3)]
+        except (Unsupported, UndefinedBehaviour):
             return None
-        stores = {}
-        for bid, i, s in f.stmts():
-            s_ = strip(s)
-            if s_.get('k') == 'bin' and s_['op'] == '=':
-                l = strip(s_['l'])
-                if l.get('k') == 'sub':
-                    ix = linear(l['idx'], sym)
-                    if ix is not None and ix.get('len') == 1:
-                        stores[ix.get(1, 0)] = cval(s_['r'])
-        if sorted(stores) == [0, 1, 2]:
-            return [stores[0], stores[1], stores[2]]
     return None
 
 
